@@ -89,9 +89,15 @@ def run(ctx):
                     ctx.violation({"kind": "constructor-raises", "error": type(ex).__name__}, "FluxSurfaceAdvection raised %s: %s" % (type(ex).__name__, ex),
                                   {"space": sp.key(), "nz": nz, "iota": iota})
                     continue
-                for ri in range(len(rs)):
+                # step() must be a function of (f, vIdx, rIdx) only, whatever the operator object did before: the calls are made
+                # v-outer / r-inner for the r-dependent transform (consecutive calls on different surfaces with the same integer
+                # stencil), in seeded random order otherwise (gridStep's own order is r-outer / v-inner: C05 and the driver runs)
+                order = [(ri, vi) for vi in range(len(vs)) for ri in range(len(rs))]
+                if iota != "r-dependent":
+                    rng.shuffle(order)
+                for (ri, vi) in order:
                     tau = 1.0 * float(iov[ri]) / R0
-                    for vi in range(len(vs)):
+                    if True:
                         d = -vs[vi] * bz[ri] * dt / 1.0
                         d0 = Fr(round(d * 8), 8)
                         if abs(d - float(d0)) > 1e-9:
